@@ -25,9 +25,11 @@ func checkC02(c *Ctx) {
 		"K7 label sets inside decoded options re-emit their original bytes only while their names are unchanged under an exact comparison (shared with C19-K1)")
 	r.NotDecided = append(r.NotDecided, "value equality beyond slot/field/transform agreement (behaviour of net, time, append)", "label codec internals (C19)")
 	e1ParserTables(c, "C02-K1")
+	containerRules(c, "C02-K10")
 	labelNameCap(c, "C02-K6")
 	e1CheckConstants(c, "C02-K5", []string{"dhcpv6.", "iana.StatusCode", "iana.Arch", "iana.HWType", "iana.EnterpriseID"}, 200)
 	byteOrderRule(c, "C02-K8", []string{"dhcpv6", "iana", "rfc1035label"}, 40)
+	platformWidthRule(c, "C02-K11", []string{"dhcpv6", "iana", "rfc1035label"})
 	e8CheckRejects(c, "C02-K9", func(n string) bool {
 		return strings.Contains(n, "dhcpv6.") || strings.Contains(n, "iana.") || strings.Contains(n, "rfc1035label.")
 	}, 15)
